@@ -4,7 +4,9 @@
    both the intended and the transcribed reader read back.
 2. TLC (MC_NeutralFault) applies EVERY fault of the fault layer to every valid file (truncation at every token,
    every token replaced by NA, -1, 0, 2147483647, 1e308, a word, an empty line, a comment mark; wrong class tag;
-   duplicated / dropped line), classifies each faulty file with the INTENDED reader (MustFail / MaySucceed(o')) and
+   duplicated / dropped line; every integer token replaced by the values JUST OUTSIDE the domain that the specification
+   gives to its field: count n -> n-1, n+1, code of an enumeration or flag lo..hi -> hi+1, hi+2, lo-1, rank into a
+   container -> first rank out of range, -1), classifies each faulty file with the INTENDED reader (MustFail / MaySucceed(o')) and
    with the TRANSCRIPTION of the real reader (predicted outcome, memory-unsafe events), and reports the first
    divergence between the two readers.
 3. harness nf_fault materialises every faulty file (thorough tier: also every byte prefix of every valid file) and
@@ -548,7 +550,7 @@ def _run(ck, tier):
                          (v["text"][:300], outs[v["id"]], sani.get(v["id"])))
     stats = evaluate(ck, files + valid, outs, sani, "main")
     per_kind = collections.Counter(f["kind"] for f in files)
-    for k in ("trunc", "corrupt", "emptyline", "wrongclass", "dupline", "dropline", "tagonly"):
+    for k in ("trunc", "corrupt", "emptyline", "wrongclass", "dupline", "dropline", "tagonly", "bound"):
         if per_kind[k] == 0:
             raise Broken("no fault of kind %s was generated" % k)
     div = collections.Counter(e["diverge"] for e in faults)
@@ -557,6 +559,12 @@ def _run(ck, tier):
     ck.cov["valid_files"] = len(bases)
     ck.cov["faulty_files_per_kind"] = dict(per_kind)
     ck.cov["byte_truncations"] = nbytes
+    # boundary replacements: role of the field x verdict of the intended reader x outcome of the real loader
+    ck.cov["boundary_faults"] = {"%s/%s/%s" % k: v for k, v in sorted(collections.Counter(
+        (f.get("role", ""), f.get("verdict", "?"), outs[f["id"]]["outcome"]) for f in files if f["kind"] == "bound").items())}
+    for role in ("count", "enum", "index"):
+        if tier == "thorough" and not any(f["kind"] == "bound" and f.get("role") == role for f in files):
+            raise Broken("no boundary replacement of a field of role %s was generated" % role)
     ck.cov["files_per_class"] = dict(collections.Counter(f["c"] for f in files))
     ck.cov["verdict_x_outcome"] = {"%s/%s" % k: v for k, v in sorted(stats.items())}
     ck.cov["model_divergences_transcribed_vs_intended_reader"] = dict(div)
